@@ -75,9 +75,11 @@ def is_plain(v, depth=0):
     if v is None or isinstance(v, (bool, int, float, str, date, datetime)):
         return True
     if isinstance(v, (list, tuple, set, frozenset)):
-        return all(is_plain(x, depth + 1) for x in v)
+        rs = [is_plain(x, depth + 1) for x in v]
+        return 'generator' if 'generator' in rs else all(r is True for r in rs)
     if isinstance(v, dict):
-        return all(is_plain(k, depth + 1) and is_plain(x, depth + 1) for k, x in v.items())
+        rs = [is_plain(k, depth + 1) for k in v] + [is_plain(x, depth + 1) for x in v.values()]
+        return 'generator' if 'generator' in rs else all(r is True for r in rs)
     if isinstance(v, types.GeneratorType):
         return 'generator'
     return False
@@ -207,7 +209,11 @@ def main():
         else:
             run_positions(w['expr'])
         O.finish()
-    gen = ['(c for c in description)', 'uppercase((x for x in orders))', 'trim((r.item for r in orders))']
+    gen = ['(c for c in description)', 'uppercase((x for x in orders))', 'trim((r.item for r in orders))',
+           # a generator that is not the direct argument of a consuming function: an element of a comprehension, an operand, the value of :=, inside a list
+           '[(r.item for r in orders) for x in orders]', '"%s" % (r.item for r in orders)', 'trim([(r.item for r in orders) for x in orders])',
+           '(g := (r.item for r in orders)) and g', '[x for x in [(r.item for r in orders)]]' if False else '((r.item for r in orders) if true else 0)',
+           'len([(r.item for r in orders) for x in orders]) == 2 and [(r.item for r in orders) for x in orders][0]', '"a" + str((r.item for r in orders))' if False else 'lowercase((r.item for r in orders))']
     for e in ESCAPES + BENIGN + gen:
         run_txn(e)
         run_positions(e)
